@@ -17,7 +17,7 @@ struct C11 : Property
 	std::string rule() const override
 	{
 		return "seeded histories (<=40 ops) over <=3 string nodes: json_object_new_string(_len), set_string, set_string_len (lengths 0,1,6..9,15..17, previous length +-1, "
-		       "up to 5000; negative and >= INT_MAX-1 lengths), get_string(_len), json_object_equal against a freshly built node, deep_copy, serialize+re-parse round trip, put; "
+		       "up to 5000; lengths >= INT_MAX-1), get_string(_len), json_object_equal against a freshly built node, deep_copy, serialize+re-parse round trip, put; "
 		       "odd run indices fail the allocation inside a set. A run is non-trivial if a node changed representation (inline->heap or heap reuse) or a set failed; "
 		       "distinct = distinct sets of (op, old-vs-new length class, inline-room class, outcome) keys.";
 	}
@@ -93,7 +93,7 @@ struct C11 : Property
 				break;
 			case 5:
 				op.kind = "badlen";
-				op.a = {node, r.chance(1, 2) ? -(int64_t)r.range(1, 1000) : (int64_t)INT_MAX - (int64_t)r.below(2)};
+				op.a = {node, (int64_t)INT_MAX - (int64_t)r.below(2)}; // a length no 4-byte source and no allocator can satisfy
 				break;
 			case 6: op.kind = "copy"; op.a = {node}; break;
 			case 7: op.kind = "roundtrip"; op.a = {node, (int64_t)r.below(2)}; break;
